@@ -22,7 +22,7 @@ type StrMapCase struct {
 	Ops  []MOp `json:"ops"`
 }
 
-var strKeys = []string{"", " ", "a", " a", "a ", "\t", "b\n", "\nb", "é", "\xff", "a b", "z", "zz ", " x", "0", "00", "\r", "z\v", "~ ", "  "}
+var strKeys = []string{"", " ", "a", " a", "a ", "\t", "b\n", "\nb", "é", "\xff", "a b", "z", "zz ", " x", "0", "00", "\r", "z\v", "~ ", "  ", "%", "97%", "%d", "%!v(MISSING)", "%%", "%[1]v %s", "%!(NOVERB)", "\\", "{}"}
 
 type skv struct{ k, v string }
 
